@@ -6,7 +6,7 @@ from .. import app, docprops, engine
 from ..runner import Run, h64
 from .c07 import CRASH_RE
 
-PLAN = {"B2/53": 489, "B3/89": 350, "N1/11": 630, "W1/2": 489, "S2": 350, "S3": 84, "I4/97": 140, "B4/83": 140, "H4/3": 140, "P2": 280, "R2/3": 140, "R3": 105, "T4/7": 105, "Z1": 420, "Q2": 280, "P3/2": 210, "E1/211": 210, "L6/3": 105, "G2/3": 105, "L7/5": 105}
+PLAN = {"B2/53": 699, "B3/89": 500, "N1/11": 900, "W1/2": 699, "S2": 500, "S3": 120, "I4/97": 200, "B4/83": 200, "H4/3": 200, "P2": 400, "R2/3": 200, "R3": 150, "T4/7": 150, "Z1": 600, "Q2": 400, "P3/2": 300, "E1/211": 300, "L6/3": 150, "G2/3": 150, "L7/5": 150}
 EVALUATOR = "vp.props.c11:ev"
 RULE = (
     "base documents = sub-lattices of the bounded universes that parse, scan cleanly and contain no pragma; for 2 insertion points per document (chosen by source hash "
